@@ -733,6 +733,114 @@ func init() {
 	})
 }
 
+// atLoadOrUses: the fact holds where the option is read, or — for a read hoisted out of the place that needs it — at
+// every branch that consumes the value read (through negation, the phis of && / ||, and a local variable). A value that
+// escapes another way (argument, field) is judged where it is read.
+func atLoadOrUses(f *ssa.Function, ld *ssa.UnOp, holds func(b *ssa.BasicBlock) bool) bool {
+	if holds(ld.Block()) {
+		return true
+	}
+	var blocks []*ssa.BasicBlock
+	understood := true
+	seen := map[ssa.Value]bool{}
+	var walk func(v ssa.Value)
+	walk = func(v ssa.Value) {
+		if seen[v] {
+			return
+		}
+		seen[v] = true
+		for _, r := range *v.Referrers() {
+			switch x := r.(type) {
+			case *ssa.If:
+				blocks = append(blocks, x.Block())
+			case *ssa.UnOp:
+				if x.Op == token.NOT {
+					walk(x)
+				} else {
+					understood = false
+				}
+			case *ssa.Phi:
+				walk(x)
+			case *ssa.DebugRef:
+			case *ssa.Store:
+				al, ok := x.Addr.(*ssa.Alloc)
+				if !ok || x.Val != v {
+					understood = false
+					continue
+				}
+				for _, r2 := range *al.Referrers() {
+					switch y := r2.(type) {
+					case *ssa.UnOp:
+						if y.Op == token.MUL {
+							walk(y)
+						} else {
+							understood = false
+						}
+					case *ssa.Store:
+						if y.Addr != ssa.Value(al) {
+							understood = false
+						}
+					case *ssa.DebugRef:
+					default:
+						understood = false
+					}
+				}
+			default:
+				understood = false
+			}
+		}
+	}
+	walk(ld)
+	if !understood || len(blocks) == 0 {
+		return false
+	}
+	for _, b := range blocks {
+		if !holds(b) {
+			return false
+		}
+	}
+	return true
+}
+
+// onlyUnderTrigger: the blocks that run only with the option on (a fact "option read is true" holds there) and without
+// the trigger do nothing: no store, no return, no call of a function that writes memory. `if opt && trigger() { … }`
+// reads the option first and still changes nothing unless the trigger holds.
+func onlyUnderTrigger(c *Ctx, f *ssa.Function, ld *ssa.UnOp, trig func(b *ssa.BasicBlock) bool) bool {
+	e := BuildEff(c)
+	n := 0
+	for _, b := range f.Blocks {
+		on := false
+		for _, fa := range Facts(c, f).At(b) {
+			if fa.Cond == ssa.Value(ld) && fa.Val {
+				on = true
+			}
+		}
+		if !on {
+			continue
+		}
+		n++
+		if trig(b) {
+			continue
+		}
+		for _, ins := range b.Instrs {
+			switch x := ins.(type) {
+			case *ssa.Store, *ssa.MapUpdate, *ssa.Return, *ssa.Send, *ssa.Go, *ssa.Defer, *ssa.Panic, *ssa.RunDefers:
+				return false
+			case *ssa.Call:
+				g := x.Common().StaticCallee()
+				if g == nil {
+					return false
+				}
+				sum := e.Sum(g)
+				if sum == nil || len(sum.Mut) > 0 || len(sum.Unknown) > 0 {
+					return false
+				}
+			}
+		}
+	}
+	return n > 0
+}
+
 func keysOf(m map[string]bool) []string {
 	var out []string
 	for k := range m {
@@ -824,16 +932,22 @@ func init() {
 				b := st.ld.Block()
 				switch st.opt {
 				case "acceptInvalidCodepoints":
-					s.Check(hasFact(st.f, b, callFact("currentIsInvalid", true)), key, pos, "read only after input.currentIsInvalid() answered true", "read without the invalid-code-point test: the option could change the result for valid input")
+					trig := func(bb *ssa.BasicBlock) bool { return hasFact(st.f, bb, callFact("currentIsInvalid", true)) }
+					s.Check(atLoadOrUses(st.f, st.ld, trig) || onlyUnderTrigger(c, st.f, st.ld, trig), key, pos, "read only after input.currentIsInvalid() answered true", "read without the invalid-code-point test: the option could change the result for valid input")
 				case "percentEncodeSinglePercentSign":
 					ok := false
-					directPct := hasFact(st.f, b, func(fa condFact) bool {
-						bo, ok := fa.Cond.(*ssa.BinOp)
-						if !ok || bo.Op != token.EQL || !fa.Val {
-							return false
-						}
-						k, ok := constInt(bo.Y)
-						return ok && k == '%'
+					directPct := atLoadOrUses(st.f, st.ld, func(bb *ssa.BasicBlock) bool {
+						return hasFact(st.f, bb, func(fa condFact) bool {
+							bo, ok := fa.Cond.(*ssa.BinOp)
+							if !ok {
+								return false
+							}
+							if rel, _ := relOf(bo.Op, fa.Val); rel != token.EQL {
+								return false
+							}
+							k, ok := constInt(bo.Y)
+							return ok && k == '%'
+						})
 					})
 					// a bool parameter that is true where the option is read: the caller's answer to the invalid-percent test
 					var guardParams []int
